@@ -82,10 +82,10 @@ type deriveM struct{ pkg, recv, name string }
 func checkC07(c *Ctx) {
 	c.Rule("R7.1", "derive methods are pure: no store through the receiver (transitively), result fresh or the untouched receiver", 24)
 	c.Rule("R7.2", "no aliasing append onto receiver-owned slices in derive methods", 0)
-	c.Rule("R7.3", "encoder clone owns a fresh buffer holding a copy of the parent's bytes; ioCore.With adds fields to the clone only", 4)
-	c.Rule("R7.4", "wrapper cores forward With to the wrapped core with the same fields and copy every other field", 8)
-	c.Rule("R7.5", "names: empty segment returns the receiver, join with \".\", name copied into the entry", 4)
-	c.Rule("R7.6", "lazy With: fields evaluated exactly once, before every delegation", 5)
+	c.Rule("R7.3", "encoder clone owns a fresh buffer holding a copy of the parent's bytes; ioCore.With adds fields to the clone only", 3)
+	c.Rule("R7.4", "wrapper cores forward With to the wrapped core with the same fields and copy every other field", 5)
+	c.Rule("R7.5", "names: empty segment returns the receiver, join with \".\", name copied into the entry", 3)
+	c.Rule("R7.6", "lazy With: fields evaluated exactly once, before every delegation", 3)
 
 	mut := c.mutatesRecv()
 	exemptMut := map[string]string{
@@ -124,7 +124,7 @@ func checkC07(c *Ctx) {
 	}
 	c.Rule("R7.7", "logging through an encoder never modifies it: EncodeEntry/Clone/writeContext only read the shared receiver", 3)
 	c9EncoderPurity(c, "R7.7")
-	c.Rule("R7.8", "namespaces nest per object: AppendObject saves, zeroes, closes and restores the open-namespace counter, so a nested object never closes the logger's own namespace", 5)
+	c.Rule("R7.8", "namespaces nest per object: AppendObject saves, zeroes, closes and restores the open-namespace counter, so a nested object never closes the logger's own namespace", 4)
 	c1Namespace(c, "R7.8")
 	c7Clone(c)
 	c7Wrappers(c)
